@@ -251,3 +251,42 @@ class ListenAndAccept:
                 and self.g_reported == old.self.g_reported)
 
     loops = {1: Loop(a=inv, modifies=["self._stop_server_thread"], types={"self._sock": Const(None)})}
+
+
+# ===================================================================== the connect step of an active connection
+@contract("spec.ext:AbsSocket.connect", "C09", name="ConnectAbs")
+class ConnectAbs(_SockAbs):
+    """ASSUMED (POSIX): connects or fails with OSError."""
+    may_raise = [OSError]
+
+
+@contract("secsgem.common.tcp_connection:TcpConnection._start_receiver", "C09", name="StartReceiverAbs")
+class StartReceiverAbs:
+    """ASSUMED effect (a thread is started)."""
+
+    abstract = True
+    modifies = {"self.g_receivers": Int}
+
+    def ensures(self, old):
+        return self.g_receivers == old.self.g_receivers + 1
+
+
+@contract("secsgem.common.tcp_client_connection:TcpClientConnection._TcpClientConnection__connect", "C09")
+class ClientConnect:
+    """One connect attempt of the active side: False and nothing started when the peer cannot be reached; True with the
+    receiver started exactly once and `connected` reported exactly once after it (the gate of `_fire_connected` is what
+    keeps the close events of a peer that closes at once behind it)."""
+
+    uses = [SetSockOptAbs, SetBlockingAbs, ConnectAbs, StartReceiverAbs, FireConnectedAbs]
+    canary = "every-path"
+    may_raise = [OSError]          # setsockopt / setblocking on a socket that failed meanwhile: passed on as before
+
+    def inputs():
+        return {"self": Obj(TcpClientConnection, _settings=Obj(AbsSettings, address=Str(), port=Int(0, 65535)),
+                            _sock=Const(None), _connected=Bool, g_receivers=Int(0, None), g_reported=Int(0, None))}
+
+    def ensures(self, old, result):
+        started = self.g_receivers - old.self.g_receivers
+        return (started == (1 if result else 0) and self.g_reported - old.self.g_reported == started
+                and implies(result, lambda: self._connected and not self._sock.g_closed)
+                and implies(not result, lambda: self._connected == old.self._connected))
